@@ -9,7 +9,7 @@ import math
 
 from common import Fr, fq, dec, lean_query
 import impl
-from tracers import ApiTracer, LABELS, dyadic_grid, lammps_tokens, real_potential
+from tracers import eval_noise, ApiTracer, LABELS, dyadic_grid, lammps_tokens, real_potential
 
 from atsim.potentials import Potential, writePotentials
 from atsim.potentials.pair_tabulation import LAMMPS_PairTabulation
@@ -205,7 +205,7 @@ def real_stream(run):
                 slope = dref(rf)
                 if slope is None:
                     continue
-                tol_e = 0.51e-8 + 2.0 ** -40 * abs(ev) + abs(slope) * 4 * math.ulp(rf)
+                tol_e = 0.51e-8 + 2.0 ** -40 * abs(ev) + abs(slope) * 4 * math.ulp(rf) + 2 * eval_noise(f, rf)
                 if abs(float(Fr(e)) - ev) > tol_e:
                     problem = "%s row %d r=%r: energy printed %s, callable gives %r" % (desc, nrow, rf, e, ev)
                     break
